@@ -72,9 +72,10 @@ def import_ends(mod):
     snapshot_module(mod)
     if _depth[0] == 0 and _pre[0] is not None:
         # what the import itself changed in containers recorded earlier belongs to the baseline
-        for i, sig in _pre[0].items():
-            e = _SNAP[i]
-            if _sig(e[0]) != sig:
+        for i, e in _SNAP.items():
+            sig = _pre[0].get(i)
+            if sig is None or _sig(e[0]) != sig:
+                # changed by this import, or first seen during it (e.g. a registry that a sibling module's class creation filled)
                 e[1] = copy.copy(e[0])
         _pre[0] = None
 
